@@ -230,8 +230,16 @@ def _parse_directive_options(
         yaml_errors: list[ParseWarnings] = []
         try:
             yaml_options = yaml.safe_load(options_block or "") or {}
-        except (yaml.YAMLError, ValueError, RecursionError):
+        except (
+            yaml.YAMLError,
+            ValueError,
+            LookupError,
+            AttributeError,
+            RecursionError,
+        ):
             # RecursionError: collections nested deeper than the recursion limit
+            # LookupError, AttributeError: PyYAML's constructors for tagged scalars,
+            # e.g. ``!!bool maybe``, ``!!int ''``, ``!!timestamp today``
             yaml_options = {}
             yaml_errors.append(
                 ParseWarnings(
